@@ -139,6 +139,10 @@ func TestVerifDriver(t *testing.T) {
 	for sc.Scan() {
 		line := sc.Text()
 		f := strings.Split(line, "\t")
+		if f[0] == "G" {
+			fmt.Fprintln(w, c11FetchCase(line))
+			continue
+		}
 		if len(f) != 4 || f[0] != "S" {
 			continue
 		}
